@@ -1,13 +1,13 @@
 (* C17 — property theorems only (each closed by `exact <lemma>`, followed by Print Assumptions). *)
 From Coq Require Import List NArith Bool.
-From MW Require Import C16.Model C16.Proofs C17.Proofs C17.ProofsOrder C17.ProofsCount.
+From MW Require Import C16.Model C16.Proofs C17.Proofs C17.ProofsOrder C17.ProofsCount C17.ProofsLive.
 Import ListNotations.
 Open Scope N_scope.
 
 (* Eligibility and "never a finished job": whatever any op of any history delivers to a puller
    (immediately from StartPull, or at RunLoop through a hand-off, a retry or after re-queues) is
    not done at delivery time and belongs to a requested channel (or none was requested). *)
-Theorem C17_delivered_eligible_and_unfinished : forall h o c chs j, nodrop h = true ->
+Theorem C17_delivered_eligible_and_unfinished : forall h o c chs j,
   In (ODeliver c chs j) (snd (step (run h init) o)) ->
   j_done j = false /\ (chs = [] \/ mem (j_chan j) chs = true).
 Proof. exact delivered_ok. Qed.
@@ -15,7 +15,7 @@ Print Assumptions C17_delivered_eligible_and_unfinished.
 
 (* Finality: once a job is done in a reachable state, no continuation (finish, kill, timeout,
    re-add, disconnects, ...) changes done / error / result. *)
-Theorem C17_first_outcome_wins : forall h1 h2 x j, nodrop h1 = true -> nodrop h2 = true ->
+Theorem C17_first_outcome_wins : forall h1 h2 x j,
   getjob (s_jobs (run h1 init)) x = Some j -> j_done j = true ->
   exists j', getjob (s_jobs (run h2 (run h1 init))) x = Some j' /\
              j_done j' = true /\ j_err j' = j_err j /\ j_res j' = j_res j.
@@ -48,19 +48,34 @@ Theorem C17_wait_done_immediate : forall s c i ser j,
 Proof. exact wait_done_immediate. Qed.
 Print Assumptions C17_wait_done_immediate.
 
+(* a dropped finished job is handed over and its id is forgotten - while the id still names this very job object *)
+Theorem C17_wait_done_dropped : forall s c i ser j,
+  is_idle c s = true -> id_lookup (s_ids s) i = Some ser -> getjob (s_jobs s) ser = Some j -> j_done j = true ->
+  done_pending ser (s_hub s) = false -> j_drop j = true -> id_is (s_ids s) (j_id j) ser = true ->
+  step s (Wait c i) = (set_ids (id_del (s_ids s) (j_id j)) s, [OReleased c j]).
+Proof. exact wait_done_dropped. Qed.
+Print Assumptions C17_wait_done_dropped.
+
+(* "released exactly when finished", safety half, over all histories: whatever op releases a waiting client (Wait
+   at once, or RunLoop through the job's finish event), the job record it returns is finished. *)
+Theorem C17_released_only_finished : forall h o c j,
+  In (OReleased c j) (snd (step (run h init) o)) -> j_done j = true.
+Proof. exact released_only_finished. Qed.
+Print Assumptions C17_released_only_finished.
+
 Theorem C17_wait_undone_blocks : forall s c i ser j,
   is_idle c s = true -> id_lookup (s_ids s) i = Some ser -> getjob (s_jobs s) ser = Some j -> j_done j = false ->
   snd (step s (Wait c i)) = [OBlocked] /\ c_st (get_conn (s_conns (fst (step s (Wait c i)))) c) = BWait ser.
 Proof. exact wait_undone_blocks. Qed.
 Print Assumptions C17_wait_undone_blocks.
 
-(* Priority/FIFO order.  For every history h without Drop and every pull: the job StartPull hands over at once
+(* Priority/FIFO order.  For every history h and every pull: the job StartPull hands over at once
    is the minimum, in the order (priority, serial) of jobs.py:45-52 (serial = arrival order), among ALL unfinished
    jobs queued on a requested channel (on any channel when none was named): no such job (p, x) is smaller.
    `q_get (s_queues s) k = Some q` is the dict lookup channel2q[k].  Rests on: every channel queue is sorted (the
    heap-as-sorted-list contract of Model.v, proved as invariant QS for every op incl. Drop), _preenall leaves an
    unfinished job at every non-empty queue's head, heads = min of the heads. *)
-Theorem C17_min_first : forall h c chs j, nodrop h = true ->
+Theorem C17_min_first : forall h c chs j,
   let s := run h init in
   In (ODeliver c chs j) (snd (step s (StartPull c chs))) ->
   forall k q p x, q_get (s_queues s) k = Some q -> (chs = [] \/ mem k chs = true) -> In (p, x) q ->
@@ -90,12 +105,58 @@ Theorem C17_counters : forall h ch,
 Proof. exact counters. Qed.
 Print Assumptions C17_counters.
 
-(* NOT PROVED in Coq (covered by the differential run and the monitors only); full statement:
-   C17_wait_released_iff_done, liveness half : forall h c ser, nodrop h = true ->
-       c_st (get_conn (s_conns (run h init)) c) = BWait ser ->
-       is_done (s_jobs (run h init)) ser = false \/ done_pending ser (s_hub (run h init)) = true.
-     (a connection blocked in a wait has its job unfinished or the wake-up EvDone queued in the hub; needs a hub
-      invariant: mark_finished queues EvDone exactly when has_waiter, and RunLoop consumes the whole hub.)
-   The safety half is proved: C17_wait_done_immediate, C17_wait_undone_blocks, and released_is_done / evdone_out
-   in Proofs.v (a client is released only through EvDone of its job, with the job record, or - dropped job whose
-   id is already gone - gets the KeyError response). *)
+(* "Clients waiting for a job are released exactly when it is finished", liveness half.
+   Hub invariant, for EVERY history: a connection blocked in a wait either waits for an unfinished job, or the wake-up
+   (the notifier of its job's finish event, EvDone) is queued in the hub. *)
+Theorem C17_waiter_has_wakeup : forall h c ser, let s := run h init in
+  c_st (get_conn (s_conns s) c) = BWait ser ->
+  is_done (s_jobs s) ser = false \/ done_pending ser (s_hub s) = true.
+Proof. exact waiter_has_wakeup. Qed.
+Print Assumptions C17_waiter_has_wakeup.
+
+(* The event-loop turn that follows the finish ends the wait: connection c blocked on job ser, ser finished; after
+   RunLoop c has received the finished job record - or c's own disconnect was queued in front of the notification and
+   c died in this very turn. *)
+Theorem C17_runloop_releases : forall h c ser, let s := run h init in
+  c_st (get_conn (s_conns s) c) = BWait ser -> is_done (s_jobs s) ser = true ->
+  exists j, getjob (s_jobs s) ser = Some j /\ j_done j = true /\
+    (In (OReleased c j) (snd (step s RunLoop)) \/
+     (In (ODied c) (snd (step s RunLoop)) /\
+      exists a b, s_hub s = a ++ EvKill c :: b /\ ~ In (EvDone ser) a)).
+Proof. exact runloop_outcome. Qed.
+Print Assumptions C17_runloop_releases.
+
+Theorem C17_no_waiter_of_finished_job_after_loop : forall h c ser, let s := run h init in
+  is_done (s_jobs s) ser = true -> c_st (get_conn (s_conns (fst (step s RunLoop))) c) <> BWait ser.
+Proof. exact no_waiter_of_done_after_loop. Qed.
+Print Assumptions C17_no_waiter_of_finished_job_after_loop.
+
+(* From the wait to its end, over any continuation h2: c blocks on ser after h; if ser is finished after h2, then in
+   the outputs of h2 followed by one RunLoop c was released with the finished record of ser, or c died; and as long as
+   ser is unfinished, c is still blocked (or died): released exactly when finished. *)
+Theorem C17_wait_ends_by_release_or_death : forall h c ser h2, let s := run h init in let s2 := run h2 s in
+  c_st (get_conn (s_conns s) c) = BWait ser ->
+  is_done (s_jobs s2) ser = true ->
+  let tr := outs (h2 ++ [RunLoop]) s in
+  (exists j, j_serial j = ser /\ j_done j = true /\ In (OReleased c j) tr) \/ In (ODied c) tr.
+Proof. exact wait_ends_by_release_or_death. Qed.
+Print Assumptions C17_wait_ends_by_release_or_death.
+
+Theorem C17_wait_blocks_until_finish : forall h c ser h2, let s := run h init in let s2 := run h2 s in
+  c_st (get_conn (s_conns s) c) = BWait ser ->
+  is_done (s_jobs s2) ser = false ->
+  c_st (get_conn (s_conns s2) c) = BWait ser \/ In (ODied c) (outs h2 s).
+Proof. exact wait_blocks_until_finish. Qed.
+Print Assumptions C17_wait_blocks_until_finish.
+
+(* Non-vacuity: Add; Wait 1 a1 blocks; Finish 2 a1 queues the notifier; RunLoop releases connection 1 with result 7. *)
+Example C17_wait_example :
+  let s := run live_h init in
+  let s2 := run [live_fin] s in
+  outs live_h init = [OJid (JAuto 1); OBlocked] /\
+  c_st (get_conn (s_conns s) 1) = BWait 1 /\ is_done (s_jobs s) 1 = false /\
+  c_st (get_conn (s_conns s2) 1) = BWait 1 /\ is_done (s_jobs s2) 1 = true /\ s_hub s2 = [EvDone 1] /\
+  c_st (get_conn (s_conns (fst (step s2 RunLoop))) 1) = Idle /\
+  exists j, snd (step s2 RunLoop) = [OReleased 1 j] /\ j_serial j = 1 /\ j_done j = true /\ j_res j = Some 7.
+Proof. exact live_released. Qed.
+Print Assumptions C17_wait_example.
